@@ -40,7 +40,7 @@ def gen_cases(tier, seed):
 
 def required(tier):
     return {"rt.decided": 60000, "rt.class.leading_zeros": 2000, "rt.class.empty": 1, "str.decided": 100000,
-            "str.ref_accepts": 2000, "str.class.outside_alphabet": 3000, "str.class.whitespace": 3000, "str.class.non_ascii": 500, "str.class.shorter_than_checksum": 1000, "cli.encoded": 30, "argtypes.calls": 100}
+            "str.ref_accepts": 2000, "str.class.outside_alphabet": 3000, "str.class.whitespace": 3000, "str.class.non_ascii": 500, "str.class.shorter_than_checksum": 1000, "cli.encoded": 30, "cli.crossed_modes": 30, "argtypes.calls": 100}
 
 
 def exhaustive(tier, counts):
@@ -271,6 +271,18 @@ def run_case(kind, params, ctx):
         got = clihelp.parse_out(r2["out"], "hex")
         if not r2["ok"] or got != data:
             ctx.violation(f"cli/decode-wrong/{'check' if chk else 'plain'}", f"bits base58 --decode of {exp!r} gave {r2['out'][:60]!r} (ret {r2['ret']!r}, exit {r2['exit']!r}), expected {data.hex()}")
+        # the two modes crossed: a checksummed string decoded PLAINLY keeps its four checksum bytes; a plain string decoded
+        # with --check is refused (unless its tail happens to be a checksum)
+        ctx.count("cli.crossed_modes")
+        if chk:
+            r3 = clihelp.run(["base58", "--decode"], exp)
+            want = r58.decode(exp)
+            if not r3["ok"] or clihelp.parse_out(r3["out"], "hex") != want:
+                ctx.violation("cli/decode-wrong/plain-decode-of-checksummed-string", f"bits base58 --decode of {exp!r} gave {r3['out'][:80]!r}, expected {want.hex()} (payload + checksum)")
+        elif r58.check_decode(exp) is None:
+            r3 = clihelp.run(["base58", "--decode", "--check"], exp)
+            if r3["ok"] and r3["out"].strip():
+                ctx.violation("cli/decode-accepts-invalid/check-decode-of-plain-string", f"bits base58 --decode --check of {exp!r} printed {r3['out'][:80]!r}")
         return
     if kind == "arg_types":
         import bits.base58 as b58
